@@ -417,6 +417,10 @@ func (e *Exec) binop(op token.Token, xt types.Type, a, b Value, yt types.Type) V
 			return e.viewEq(strView(sa), strView(sb))
 		case token.NEQ:
 			return smt.Not(e.viewEq(strView(sa), strView(sb)))
+		case token.LSS, token.LEQ, token.GTR, token.GEQ:
+			// lexicographic order is not encoded: an arbitrary (fresh) outcome per comparison
+			e.Notes["string ordering comparison: outcome modelled as an arbitrary boolean (order-dependent results are outside the claim)"] = true
+			return e.fresh("strcmp", smt.Bool)
 		}
 		panic(engineErr("string binop %v unsupported", op))
 	}
